@@ -31,15 +31,16 @@ var fieldGuardOverride = map[string]string{
 
 // reviewedUnguarded: field -> reason an unguarded access is accepted.
 var reviewedUnguarded = map[string]string{
-	"Association.useInterleaving": "written only while negotiating (handshake handlers under the lock, before any stream can write); Stream.packetize/WriteSCTP read it under Stream.lock only",
-	"Association.maxPayloadSize":  "same life cycle as useInterleaving",
-	"Association.netConnCloseErr": "written inside netConnCloseOnce.Do, read after Do returns (Once gives the happens-before)",
-	"Association.ackMode":         "test-only knob",
-	"Stream.streamIdentifier":     "set at creation only",
-	"reassemblyQueue.nBytes":      "atomic",
-	"rtxTimer.timer":              "set at construction; time.Timer is itself synchronised",
-	"ackTimer.timer":              "set at construction",
-	"rtoManager.noUpdate":         "test-only knob, under the mutex where written",
+	"Association.useInterleaving":  "written only while negotiating (handshake handlers under the lock, before any stream can write); Stream.packetize/WriteSCTP read it under Stream.lock only",
+	"Association.maxPayloadSize":   "same life cycle as useInterleaving",
+	"Association.netConnCloseErr":  "written inside netConnCloseOnce.Do, read after Do returns (Once gives the happens-before)",
+	"Association.ackMode":          "test-only knob",
+	"Association.recvZeroChecksum": "written at construction and, for out-of-band tokens, in initWithOutOfBandTokens strictly before `go a.readLoop()` (the go statement gives the happens-before; the read loop is the only reader) — C13.R3 restricts the writers to those two functions and checks that no go statement can reach the write",
+	"Stream.streamIdentifier":      "set at creation only",
+	"reassemblyQueue.nBytes":       "atomic",
+	"rtxTimer.timer":               "set at construction; time.Timer is itself synchronised",
+	"ackTimer.timer":               "set at construction",
+	"rtoManager.noUpdate":          "test-only knob, under the mutex where written",
 }
 
 func init() {
